@@ -41,6 +41,7 @@ type WorldJSON struct {
 		Skew       int      `json:"skew"`      // client clock skew, seconds
 		AT         string   `json:"at"`
 		Assert     bool     `json:"assert"`
+		HasKey     bool     `json:"hasKey"` // the storage holds a public key for the client (whatever its auth method)
 		Method     string   `json:"method"` // "unset": the registration names no auth method (empty string = client_secret_basic by default)
 	} `json:"clients"`
 	Users []string `json:"users"`
@@ -134,7 +135,7 @@ func BuildRegs(w *WorldJSON) []*modelstore.ClientReg {
 		for _, u := range c.PLGlob {
 			r.HasGlobs, r.PLGlobs = true, append(r.PLGlobs, ConcreteGlob[u])
 		}
-		if c.Auth == "pkjwt" {
+		if c.Auth == "pkjwt" || c.HasKey {
 			k := ClientKey(id)
 			r.Keys = map[string]*jose.JSONWebKey{k.KID: {Key: k.Pub, KeyID: k.KID, Use: "sig", Algorithm: string(k.Alg)}}
 		}
